@@ -140,3 +140,44 @@ Qed.
 Example levels_roundtrip_ex :
   decode_levels 1 (encode_all 1 [0;1;1;1;1;1;1;1;1;1;0]) 11 = Ok [0;1;1;1;1;1;1;1;1;1;0].
 Proof. vm_compute. reflexivity. Qed.
+
+(* ------------------------------------------------------------------ the encoder's output is a byte string *)
+
+Definition is_bytes (l : list N) : Prop := Forall (fun b => b < 256) l.
+
+Lemma to_base_bytes n x : is_bytes (to_base 256 n x).
+Proof.
+  revert x. induction n as [|n IH]; intro x; cbn [to_base]; [constructor|].
+  constructor; [apply N.mod_lt; discriminate|apply IH].
+Qed.
+
+Lemma uleb_bytes f x : is_bytes (uleb f x).
+Proof.
+  revert x. induction f as [|f IH]; intro x; cbn [uleb].
+  - constructor; [|constructor]. pose proof (N.mod_lt x 128 ltac:(discriminate)). lia.
+  - destruct (N.ltb_spec x 128); [constructor; [lia|constructor]|].
+    constructor; [|apply IH]. pose proof (N.mod_lt x 128 ltac:(discriminate)). lia.
+Qed.
+
+Lemma is_bytes_app a b : is_bytes a -> is_bytes b -> is_bytes (a ++ b).
+Proof. intros. apply Forall_app. split; assumption. Qed.
+
+Lemma is_bytes_concat ls : Forall is_bytes ls -> is_bytes (concat ls).
+Proof. intros H. induction H; cbn [concat]; [constructor|apply is_bytes_app; assumption]. Qed.
+
+Lemma bytes_of_runs_bytes w rs : is_bytes (bytes_of_runs w rs).
+Proof.
+  unfold bytes_of_runs. apply is_bytes_concat. apply Forall_forall. intros l Hl.
+  apply in_map_iff in Hl. destruct Hl as (r & <- & _). destruct r as [n v|vs]; cbn [bytes_of_run].
+  - apply is_bytes_app; [apply uleb_bytes|apply to_base_bytes].
+  - apply is_bytes_app; [apply uleb_bytes|]. apply is_bytes_concat. apply Forall_forall. intros g Hg.
+    apply in_map_iff in Hg. destruct Hg as (x & <- & _). unfold pack_spec. apply to_base_bytes.
+Qed.
+
+(** the RLE encoder emits bytes (for levels that fit the width) *)
+Lemma encode_all_bytes w vs : Forall (fun v => v < 2 ^ N.of_nat w) vs -> 2 * N.of_nat (length vs) < 2 ^ 32 ->
+  is_bytes (encode_all w vs).
+Proof.
+  intros Hs Hb. destruct (encode_all_runs w vs Hs Hb) as (rs & k & E & Hok & _).
+  destruct (chunks_are_spec w rs Hok) as [C _]. rewrite E, C. apply bytes_of_runs_bytes.
+Qed.
